@@ -5,6 +5,8 @@
 //! Stand-ins: `flume` (single-threaded FIFO with `into_stream`).  In native replay the same
 //! harness runs over the real `flume` (items are queued before the future is polled).
 use super::*;
+#[allow(unused_imports)]
+use crate::verif_env::k as kani;
 use crate::actor::{ActorMessage, ResponseSender};
 use std::future::Future;
 use std::pin::Pin;
